@@ -80,9 +80,9 @@ class DeterministicOde(BaseOdeModel):
         # Tell pygom what it needs if it wants to compile
         self.add_func("ode", self.get_ode_eqn, oT="vec", is_master_canary=True)
         self.add_func("jacobian", self.get_jacobian_eqn, oT="mat")
-        self.add_func("diff_jacobian", self.get_diff_jacobian_eqn)
+        self.add_func("diff_jacobian", self.get_diff_jacobian_eqn, oT="mat")
         self.add_func("grad", self.get_grad_eqn, oT="mat")
-        self.add_func("grad_jacobian", self.get_grad_jacobian_eqn)
+        self.add_func("grad_jacobian", self.get_grad_jacobian_eqn, oT="mat")
         # TODO: update _Hessian and _HessianWithParam to this framework.
         self._Hessian=None
         self._HessianWithParam=None
